@@ -965,6 +965,13 @@ def getattr_(I, ctx, o, name, default=_MISSING):
             return o.name
         if name == "__mro__":
             return TupleVal(o.mro())
+        if name == "__dict__":
+            from .interp import hkey
+            d = DictVal()
+            for k, v in o.ns.items():
+                d.items[hkey(k)] = v
+                d.keyvals[hkey(k)] = k
+            return d
         attr, owner = o.lookup(name)
         if owner is not None:
             if isinstance(attr, ClassMethodVal):
